@@ -112,9 +112,10 @@ ConB(n) == IF n = 1
            ELSE << E(<<R(2), R(2)>>), E(<<R(2), R(7)>>), B(<<R(-3), R(-3)>>, <<R(4), R(4)>>),
                    B(<<R(-3), NoV>>, <<NoV, R(5)>>), B(<<R(-3), R(-1)>>, <<NoV, NoV>>) >>
 
-\* the model: y_i = a_i * x_i + b_i (constraint),  f = p * (x_1 + .. + x_n) + c (objective); integer coefficients
-ModelSeq == << [a |-> <<R(2), R(-3)>>, b |-> <<R(1), R(4)>>, p |-> R(5), c |-> R(-1)],
-               [a |-> <<R(-1), R(4)>>, b |-> <<Zero, R(-2)>>, p |-> R(-2), c |-> R(3)] >>
+\* the model: y_i = a_i * x_i + w_i * x_j + b_i (constraint; j the other element, w = 0 for one element),
+\* f = p * (x_1 + .. + x_n) + c (objective); integer coefficients, the 2 x 2 blocks are full and nonsingular
+ModelSeq == << [a |-> <<R(2), R(-3)>>, w |-> <<R(1), R(2)>>, b |-> <<R(1), R(4)>>, p |-> R(5), c |-> R(-1)],
+               [a |-> <<R(-1), R(4)>>, w |-> <<R(3), R(1)>>, b |-> <<Zero, R(-2)>>, p |-> R(-2), c |-> R(3)] >>
 XSeq == << <<R(3), R(-2)>>, <<Q(1, 2), Zero>>, <<R(-4), R(7)>> >>      \* model values of the design variable
 YSeq == << <<One, R(-2)>>, <<Q(3, 2), Zero>> >>                        \* optimizer-space values handed to the driver
 Pre(s, n) == [i \in 1..n |-> s[i]]
@@ -124,21 +125,24 @@ Mk(n, idv, icon) ==
     IN [n |-> n, idv |-> idv, icon |-> icon,
         dv |-> Voi(n, idv), con |-> Voi(n, icon), obj |-> ObjSeq[((idv + icon) % 7) + 1],
         dvb |-> DvB(n)[((idv + icon) % Len(DvB(n))) + 1], conb |-> ConB(n)[((2 * idv + icon) % Len(ConB(n))) + 1],
-        a |-> Pre(md.a, n), b |-> Pre(md.b, n), p |-> md.p, c |-> md.c,
+        a |-> Pre(md.a, n), w |-> (IF n = 1 THEN <<Zero>> ELSE md.w), b |-> Pre(md.b, n), p |-> md.p, c |-> md.c,
         x |-> Pre(XSeq[((idv + 2 * icon) % 3) + 1], n), yset |-> Pre(YSeq[((idv + icon) % 2) + 1], n)]
 
 \* ------------------------------------------------------------------------------------------------
 \* What the driver must report for a scenario
 \* ------------------------------------------------------------------------------------------------
-ConVal(s, x) == [i \in 1..s.n |-> Add(Mul(s.a[i], x[i]), s.b[i])]
+ConVal(s, x) == [i \in 1..s.n |-> Add(Add(Mul(s.a[i], x[i]), Mul(s.w[i], x[s.n + 1 - i])), s.b[i])]
 ObjVal(s, x) == <<Add(Mul(s.p, SumSeq(x)), s.c)>>
-Jcon(s) == [r \in 1..s.n |-> [c \in 1..s.n |-> IF r = c THEN s.a[r] ELSE Zero]]
+Jcon(s) == [r \in 1..s.n |-> [c \in 1..s.n |-> IF r = c THEN s.a[r] ELSE s.w[r]]]
 Jobj(s) == << [c \in 1..s.n |-> (s.p)] >>
 Strip(V) == [V EXCEPT !.kind = "none"]          \* same units, no scaling
 
-\* multipliers of the problem  min f  s.t. y = const (all constraint elements active):  Jf + Jg^T lam = 0; with a
-\* diagonal Jg:  lam_i = -Jf[i] / Jg[i][i];  alternatively all design variables on a bound:  mu_c = -Jf[c]
-Lam(Jf, Jg) == [i \in DOMAIN Jg |-> Neg(Div(Jf[1][i], Jg[i][i]))]
+\* multipliers of the problem  min f  s.t. y = const (all constraint elements active):  Jf^T + Jg^T lam = 0, solved with
+\* Cramer's rule for one or two elements;  alternatively all design variables on a bound:  mu_c = -Jf[c]
+Lam(Jf, Jg) == IF Len(Jg) = 1 THEN <<Neg(Div(Jf[1][1], Jg[1][1]))>>
+               ELSE LET det == Sub(Mul(Jg[1][1], Jg[2][2]), Mul(Jg[1][2], Jg[2][1]))
+                    IN << Div(Sub(Mul(Jf[1][2], Jg[2][1]), Mul(Jf[1][1], Jg[2][2])), det),
+                          Div(Sub(Mul(Jf[1][1], Jg[1][2]), Mul(Jf[1][2], Jg[1][1])), det) >>
 Mu(Jf) == [c \in DOMAIN Jf[1] |-> Neg(Jf[1][c])]
 
 Expect(s) ==
@@ -161,48 +165,53 @@ Expect(s) ==
         muS |-> muS, mu |-> MultUnscale(muS, s.dv, s.obj)]
 
 \* ------------------------------------------------------------------------------------------------
-\* Scenario enumeration: the initial states fix (n, design variable), the step chooses the constraint; objective,
+\* Scenario enumeration: the initial states fix n, step Pick the design variable, step Choose the constraint; objective,
 \* bounds, model coefficients and evaluation point rotate with the two indices.  With Stride = k only every k-th
-\* constraint is taken, shifted by the design variable's declaration index: every declaration pair and every pair
-\* of unit maps still occurs (Stride = number of unit maps).
+\* constraint is taken, shifted by the design variable's declaration index: with Stride = 4 (the number of unit maps)
+\* every pair of declarations and every pair of unit maps still occurs, with Stride = 8 every second pair of declarations.
 \* ------------------------------------------------------------------------------------------------
 CONSTANTS MaxN,         \* largest number of elements (1 or 2)
           Stride        \* 1: every (design variable, constraint) pair; k: every k-th constraint, rotating
 VARIABLES stage, scen, out
 vars == <<stage, scen, out>>
-Init == stage = 0 /\ out = <<>> /\ \E n \in 1..MaxN : \E idv \in 1..NVoi(n) : scen = [n |-> n, idv |-> idv]
-Choose == /\ stage = 0 /\ stage' = 1
+Init == stage = 0 /\ out = <<>> /\ \E n \in 1..MaxN : \E g \in 0..7 : scen = [n |-> n, g |-> g]   \* g: work sharing only
+Pick == /\ stage = 0 /\ stage' = 1 /\ out' = out
+        /\ \E idv \in 1..NVoi(scen.n) : idv % 8 = scen.g /\ scen' = [n |-> scen.n, idv |-> idv]
+Choose == /\ stage = 1 /\ stage' = 2
           /\ \E icon \in 1..NVoi(scen.n) :
                 /\ (icon + ((scen.idv - 1) \div Len(UnitSeq))) % Stride = 0
                 /\ scen' = Mk(scen.n, scen.idv, icon)
           /\ out' = Expect(scen')
-Next == Choose
+Next == Pick \/ Choose
 
 \* ------------------------------------------------------------------------------------------------
 \* Laws (checked on every scenario)
 \* ------------------------------------------------------------------------------------------------
-Grid == {Q(-7, 2), Zero, Q(1, 3), R(5)}
-Vois(s) == {<<s.dv, s.n>>, <<s.con, s.n>>, <<s.obj, 1>>}
+\* Per-declaration laws are checked once for every declaration of the grid: every declaration occurs as the design
+\* variable of a stage-1 state (the objective declarations ride along with the first ones); the scenario laws are
+\* checked on every scenario (stage 2).
+Grid == {Q(-7, 2), R(-2), Zero, Q(1, 3), One, R(5)}
+Vois0 == {<<Voi(scen.n, scen.idv), scen.n>>} \cup {<<ObjSeq[k], 1>> : k \in {scen.idv} \cap (1..Len(ObjSeq))}
 
 \* the map is invertible, both ways, and equals the single-affine form
-InverseLaw_(s) == \A W \in Vois(s) : \A i \in 1..W[2] : \A x \in Grid :
-                     /\ Unscale(W[1], i, Scale(W[1], i, x)) = x
-                     /\ Scale(W[1], i, Unscale(W[1], i, x)) = x
-                     /\ UnscaleU(W[1], i, ScaleU(W[1], i, x)) = x
-                     /\ Scale(W[1], i, x) = Mul(Add(x, FullAdder(W[1], i)), FullScaler(W[1], i))
-InverseLaw == stage = 1 => InverseLaw_(scen)
+InverseLaw == stage = 1 => \A W \in Vois0 : \A i \in 1..W[2] : \A x \in Grid :
+                 /\ Unscale(W[1], i, Scale(W[1], i, x)) = x
+                 /\ Scale(W[1], i, Unscale(W[1], i, x)) = x
+                 /\ UnscaleU(W[1], i, ScaleU(W[1], i, x)) = x
+                 /\ ScaleU(W[1], i, UnscaleU(W[1], i, x)) = x
+                 /\ Scale(W[1], i, x) = Mul(Add(x, FullAdder(W[1], i)), FullScaler(W[1], i))
 \* scalers are never zero, adders/scalers from ref/ref0 send ref to 1 and ref0 to 0
-RefLaw_(s) == \A W \in Vois(s) : \A i \in 1..W[2] :
-                 /\ TotalScaler(W[1], i) # Zero
-                 /\ W[1].kind = "ref" => /\ ScaleU(W[1], i, Dflt(W[1].p[i], One)) = One
-                                         /\ ScaleU(W[1], i, Dflt(W[1].q[i], Zero)) = Zero
-                 /\ W[1].kind = "none" => \A x \in Grid : ScaleU(W[1], i, x) = x
-RefLaw == stage = 1 => RefLaw_(scen)
+RefLaw == stage = 1 => \A W \in Vois0 : \A i \in 1..W[2] :
+             /\ TotalScaler(W[1], i) # Zero
+             /\ W[1].kind = "ref" => /\ ScaleU(W[1], i, Dflt(W[1].p[i], One)) = One
+                                     /\ ScaleU(W[1], i, Dflt(W[1].q[i], Zero)) = Zero
+             /\ W[1].kind = "none" => \A x \in Grid : ScaleU(W[1], i, x) = x
 \* bounds: absent stays absent; a present bound is the image of the model value it bounds; order is kept by a positive
 \* scaler and reversed by a negative one (the implementation does not swap)
 BoundLaw1(V, i, lo, up) ==
     /\ ScaleB(V, i, NoV) = NoV
     /\ lo # NoV => ScaleB(V, i, lo) = Scale(V, i, FromUnits(V.u, lo))
+    /\ up # NoV => ScaleB(V, i, up) = Scale(V, i, FromUnits(V.u, up))
     /\ (lo # NoV /\ up # NoV /\ Lt(lo, up)) =>
           IF RSgn(TotalScaler(V, i)) > 0 THEN Lt(ScaleB(V, i, lo), ScaleB(V, i, up))
           ELSE Gt(ScaleB(V, i, lo), ScaleB(V, i, up))
@@ -211,10 +220,12 @@ BoundLaw1(V, i, lo, up) ==
           (Le(lo, x) /\ Le(x, up)) <=>
              (Le(RMin(ScaleB(V, i, lo), ScaleB(V, i, up)), ScaleU(V, i, x))
               /\ Le(ScaleU(V, i, x), RMax(ScaleB(V, i, lo), ScaleB(V, i, up))))
-BoundLaw_(s) == /\ \A i \in 1..s.n : BoundLaw1(s.dv, i, s.dvb.lo[i], s.dvb.up[i])
-                /\ \A i \in 1..s.n : BoundLaw1(s.con, i, s.conb.lo[i], s.conb.up[i])
-                /\ \A i \in 1..s.n : (s.conb.eq[i] = NoV) = (out.conEq[i] = NoV)
-BoundLaw == stage = 1 => BoundLaw_(scen)
+BoundLaw == /\ stage = 1 => LET V == Voi(scen.n, scen.idv)
+                                BS == DvB(scen.n) \o ConB(scen.n)
+                            IN \A k \in 1..Len(BS) : \A i \in 1..scen.n : BoundLaw1(V, i, BS[k].lo[i], BS[k].up[i])
+            /\ stage = 2 => \A i \in 1..scen.n : /\ (scen.conb.eq[i] = NoV) = (out.conEq[i] = NoV)
+                                                  /\ (scen.conb.lo[i] = NoV) = (out.conLo[i] = NoV)
+                                                  /\ (scen.dvb.up[i] = NoV) = (out.dvUp[i] = NoV)
 
 \* composition law: the optimizer sees h = Scale_resp o model o Unscale_dv.  h is affine, so its derivative with respect
 \* to optimizer variable c is the exact difference h(y0 + e_c) - h(y0); it must equal ScaleJ of the model block.
@@ -230,20 +241,22 @@ JLaw_(s) == \A c \in 1..s.n :
                \* unit-only blocks are the scaled blocks of the declarations with the scaling stripped
                /\ ScaleJ(Jcon(s), Strip(s.con), Strip(s.dv)) = out.JcU
                /\ ScaleJ(Jobj(s), Strip(s.obj), Strip(s.dv)) = out.JoU
-JLaw == stage = 1 => JLaw_(scen)
+JLaw == stage = 2 => JLaw_(scen)
 \* values: scaling of the driver-unit value, unscaling gives back the model value; set round trip
 ValueLaw_(s) == /\ \A i \in 1..s.n : Unscale(s.dv, i, out.dvS[i]) = s.x[i] /\ ScaleU(s.dv, i, out.dvU[i]) = out.dvS[i]
                 /\ \A i \in 1..s.n : Scale(s.dv, i, out.xset[i]) = s.yset[i]
                 /\ \A i \in 1..s.n : Unscale(s.con, i, out.conS[i]) = ConVal(s, s.x)[i]
                 /\ Unscale(s.obj, 1, out.objS[1]) = ObjVal(s, s.x)[1]
-ValueLaw == stage = 1 => ValueLaw_(scen)
+ValueLaw == stage = 2 => ValueLaw_(scen)
 \* multipliers brought back to driver units do not depend on the scaling: they equal the multipliers of the same
 \* problem with every scaler/adder/ref/ref0 removed (units kept)
+Stationary(Jf, Jg, lam) == \A c \in DOMAIN Jf[1] : Add(Jf[1][c], SumSeq([r \in DOMAIN Jg |-> Mul(Jg[r][c], lam[r])])) = Zero
 MultLaw_(s) == LET JcU == out.JcU
                    JoU == out.JoU
-               IN /\ out.lam = Lam(JoU, JcU)
+               IN /\ Stationary(out.JoS, out.JcS, out.lamS) /\ Stationary(JoU, JcU, out.lam)
+                  /\ out.lam = Lam(JoU, JcU)
                   /\ out.mu = Mu(JoU)
-MultLaw == stage = 1 => MultLaw_(scen)
+MultLaw == stage = 2 => MultLaw_(scen)
 
-Export == stage = 1 => PrintT(<<"EXP", ToJson([s |-> scen, v |-> out])>>)
+Export == stage = 2 => PrintT(<<"EXP", ToJson([s |-> scen, v |-> out])>>)
 =============================================================================
